@@ -163,7 +163,8 @@ def wf' : List Down → Bool
 
 /-- "FIFO transducer whatever the demand pattern": judge the downstream messages a stage sent against
     the list semantics `stages` of what it consumed. `src` = the stage is a source emitting `srcVals`. -/
-def judgeStage (stages : List Stage) (srcVals : Option (List Val)) (unord : Bool) (obs : List Obs) : Option String :=
+def judgeStage (stages : List Stage) (srcVals : Option (List Val)) (unord : Bool) (obs : List Obs)
+    (pool : Option (List Val) := none) : Option String :=
   if obs.any (·.panic) then some "the stage panicked (message handled before its stageWire)" else
   let handled := obs.filter (fun o => !o.dead)
   let insAll : List Down := handled.filterMap fun o => match o.ev with | .down d => some d | _ => none
@@ -175,7 +176,9 @@ def judgeStage (stages : List Stage) (srcVals : Option (List Val)) (unord : Bool
   let ys := elemsOf' outs
   let r := sem stages xs
   if !wf' outs then some "an element (or a different terminal) was sent after a terminal message" else
-  if !(if unord then isSubPerm ys r.1 else isPrefix ys r.1) then some "emitted elements are not a prefix of the stage semantics of the consumed elements" else
+  -- an unordered parallel stage may emit results of elements that FOLLOW a failing one before the failure arrives:
+  -- `pool` = the results of all consumed elements that do not fail
+  if !(if unord then isSubPerm ys (pool.getD r.1) else isPrefix ys r.1) then some "emitted elements are not a prefix of the stage semantics of the consumed elements" else
   match termOf' outs with
   | none => none
   | some none =>
